@@ -277,4 +277,115 @@ theorem pad_length (bs : Nat) (hbs : 0 < bs) (p : Bytes) : ∃ k, (pad bs p).len
   omega
 
 
+/-! ### base64 text as bytes -/
+
+/-- every character of a base64 text is `=` or one of the 64 alphabet characters -/
+theorem b64EncodeChars_mem (b : Bytes) : ∀ c ∈ b64EncodeChars b, c = '=' ∨ ∃ n, n < 64 ∧ c = b64Char n := by
+  induction b using b64EncodeChars.induct with
+  | case1 => intro c h; simp [b64EncodeChars] at h
+  | case2 a =>
+    have ha := a.toNat_lt
+    intro c h
+    simp only [b64EncodeChars, List.mem_cons, List.not_mem_nil, or_false] at h
+    rcases h with h | h | h | h
+    · right; exact ⟨_, by omega, h⟩
+    · right; exact ⟨_, by omega, h⟩
+    · left; exact h
+    · left; exact h
+  | case3 a b =>
+    have ha := a.toNat_lt
+    have hb := b.toNat_lt
+    intro c h
+    simp only [b64EncodeChars, List.mem_cons, List.not_mem_nil, or_false] at h
+    rcases h with h | h | h | h
+    · right; exact ⟨_, by omega, h⟩
+    · right; exact ⟨_, by omega, h⟩
+    · right; exact ⟨_, by omega, h⟩
+    · left; exact h
+  | case4 a b c rest ih =>
+    have ha := a.toNat_lt
+    have hb := b.toNat_lt
+    have hc := c.toNat_lt
+    intro x h
+    simp only [b64EncodeChars, List.mem_cons] at h
+    rcases h with h | h | h | h | h
+    · right; exact ⟨_, by omega, h⟩
+    · right; exact ⟨_, by omega, h⟩
+    · right; exact ⟨_, by omega, h⟩
+    · right; exact ⟨_, by omega, h⟩
+    · exact ih x h
+
+theorem b64Char_props : ∀ n, n < 64 → (b64Char n).toNat < 128 ∧ b64Char n ≠ '\r' ∧ b64Char n ≠ '\n' := by decide
+
+theorem b64EncodeChars_ascii (b : Bytes) : ∀ c ∈ b64EncodeChars b, c.toNat < 128 ∧ c ≠ '\r' ∧ c ≠ '\n' := by
+  intro c h
+  rcases b64EncodeChars_mem b c h with h | ⟨n, hn, h⟩
+  · subst h; decide
+  · subst h; exact b64Char_props n hn
+
+theorem map_eq_self {α : Type} (f : α → α) : ∀ l : List α, (∀ x ∈ l, f x = x) → l.map f = l := by
+  intro l
+  induction l with
+  | nil => intro _; rfl
+  | cons a t ih =>
+    intro h
+    simp only [List.map_cons]
+    rw [h a (by simp), ih (fun x hx => h x (by simp [hx]))]
+
+/-- base64 text survives the conversion to bytes (the request/response body) and back to text -/
+theorem bytesToString_asciiBytes_b64 (b : Bytes) : bytesToString (asciiBytes (b64Encode b)) = b64Encode b := by
+  unfold bytesToString asciiBytes b64Encode
+  rw [String.toList_ofList, List.map_map]
+  congr 1
+  apply map_eq_self
+  intro c hc
+  have h := (b64EncodeChars_ascii b c hc).1
+  simp only [Function.comp]
+  rw [UInt8.toNat_ofNat', Nat.mod_eq_of_lt (by omega)]
+  exact Char.ofNat_toNat c
+
+/-- `base64.StdEncoding.DecodeString (EncodeToString b) = b` on text (no character of the encoding is a line break) -/
+theorem b64Decode_encode (b : Bytes) : b64Decode (b64Encode b) = some b := by
+  unfold b64Decode b64Encode
+  rw [String.toList_ofList]
+  have : (b64EncodeChars b).filter (fun c => decide (c ≠ '\r' ∧ c ≠ '\n')) = b64EncodeChars b := by
+    apply List.filter_eq_self.mpr
+    intro c hc
+    have h := b64EncodeChars_ascii b c hc
+    simp [h.2.1, h.2.2]
+  rw [this]
+  exact b64DecodeChars_encode b
+
+theorem b64EncodeChars_ne_nil (b : Bytes) (h : b ≠ []) : b64EncodeChars b ≠ [] := by
+  match b, h with
+  | [a], _ => simp [b64EncodeChars]
+  | [a, b], _ => simp [b64EncodeChars]
+  | a :: b :: c :: rest, _ => simp [b64EncodeChars]
+
+theorem asciiBytes_b64_length (b : Bytes) : (asciiBytes (b64Encode b)).length = (b64EncodeChars b).length := by
+  unfold asciiBytes b64Encode
+  rw [String.toList_ofList, List.length_map]
+
+
+/-! ### the cryption handler on base64 text -/
+
+theorem ecbDecrypt_nil_not_ok (C : BlockCipher) (key p : Bytes) : ecbDecrypt C key [] ≠ .ok p := by
+  unfold ecbDecrypt
+  by_cases hk : C.keyOk key = true
+  · rw [if_pos hk]
+    have : cryptBlocks (C.dec key) C.bs [] = [] := by
+      unfold cryptBlocks; simp [chunks, chunksAux]
+    rw [this]
+    simp [unpad]
+  · rw [if_neg hk]; simp
+
+/-- what the cryption handler does with the text of a ciphertext -/
+theorem decryptAndServe_b64 (C : BlockCipher) (key ct p : Bytes) (inner : Inner)
+    (hd : ecbDecrypt C key ct = .ok p) :
+    decryptAndServe C key (asciiBytes (b64Encode ct)) inner = flushResp C key p (inner p) := by
+  unfold decryptAndServe
+  rw [bytesToString_asciiBytes_b64, b64Decode_encode]
+  simp only [hd]
+
+
 end GoZero.C18
